@@ -1,6 +1,7 @@
 package main
 
 import (
+	"encoding/base64"
 	"encoding/json"
 
 	"github.com/juev/hledger-lsp/internal/parser"
@@ -11,6 +12,7 @@ import (
 type parseCase struct {
 	ID   string `json:"id"`
 	Text string `json:"text"`
+	B64  string `json:"b64"` // the text as base64 when it is not valid UTF-8 (takes precedence)
 }
 
 func init() {
@@ -23,6 +25,13 @@ func init() {
 			var c parseCase
 			if err := json.Unmarshal(raw, &c); err != nil {
 				return nil, err
+			}
+			if c.B64 != "" {
+				raw, err := base64.StdEncoding.DecodeString(c.B64)
+				if err != nil {
+					return nil, err
+				}
+				c.Text = string(raw)
 			}
 			j, errs := parser.Parse(c.Text)
 			return map[string]any{"id": c.ID, "errs": projErrs(errs), "entries": projectJournal(j)}, nil
